@@ -56,6 +56,30 @@ func c04Run(hseed int64, relaxed bool, v c04Variant) (*c04Result, error) {
 			w.led.inCommit = true
 			_ = w.ps.FastCommit(4)
 		}
+		// ... including commits that FAIL while encoding (a map and an array holding a value whose Encode returns an
+		// error): whatever a failing encoder took from the process-wide pools must have gone back exactly once, or
+		// the many-worker commits of the measured history below write bytes that depend on who shares a buffer with whom
+		for round := 0; round < 3; round++ {
+			wf := NewWorld(hseed^0x99, addrOf(98, 0))
+			bm, err := atree.NewMap(wf.st, wf.addr, atree.NewDefaultDigesterBuilder(), TI{ID: 4})
+			ba, err2 := atree.NewArray(wf.st, wf.addr, TI{ID: 4})
+			if err == nil && err2 == nil {
+				for i := 0; i < 40; i++ {
+					_, _ = bm.Set(wf.cb.Compare, wf.cb.HashInput, tu.Uint64Value(uint64(i)), BlobValue{ID: uint64(1000 + i), Pad: 30})
+					_ = ba.Append(BlobValue{ID: uint64(2000 + i), Pad: 30})
+				}
+				blobEncodeHook.Store(func(id uint64) error {
+					if id == 1007 || id == 2011 {
+						return ErrBlob
+					}
+					return nil
+				})
+				wf.led.inCommit = true
+				_ = wf.ps.FastCommit(3)
+				_ = wf.ps.NondeterministicFastCommit(3)
+				blobEncodeHook.Store((func(uint64) error)(nil))
+			}
+		}
 	}
 	if v.gcFirst {
 		runtime.GC()
@@ -1131,7 +1155,7 @@ func init() {
 	}
 	register(&Prop{
 		ID: "C04", Level: "exploration", Run: runC04, Cases: cases(c04Histories*2, 801*3), MinNonTrivial: 8, Post: c04Post,
-		Rule: "each of 161 (quick) / 801 (thorough) seeded histories over 4 owner addresses (two differing only in the last byte, one with a high first byte, slab indexes starting just below 255 / 65535 / 2^32), nested inlined children, composite-typed maps, deletions, a reload point, is executed as replicas that vary worker count {1,2,3,8,64}, GOMAXPROCS {1,2,16}, scheduling jitter in ledger calls, object-pool state (GC twice / unrelated work first) " +
+		Rule: "each of 161 (quick) / 801 (thorough) seeded histories over 4 owner addresses (two differing only in the last byte, one with a high first byte, slab indexes starting just below 255 / 65535 / 2^32), nested inlined children, composite-typed maps, deletions, a reload point, is executed as replicas that vary worker count {1,2,3,8,64}, GOMAXPROCS {1,2,16}, scheduling jitter in ledger calls, object-pool state (GC twice / unrelated work first, including commits that fail while encoding) " +
 			"and PROCESS (the same history runs in 2 (quick) / 3 (thorough) different worker processes, 3 replicas each). Every other history keeps a scratch container at the temporary address (its slabs stay pending among the owned ones) and operations 110-139 are each followed by a commit (write sets with <= 1 modified slab plus deletions); each history is also run once with the OTHER commit flavour: final registers, map seeds and the per-commit multisets of writes must be equal. Compared: for the deterministic commit the exact sequence of ledger writes/deletes (id, length, content hash) of every commit and strict ascending (owner bytes, index bytes) order; for the relaxed commit the multiset of writes; final registers byte-for-byte; map seeds. " +
 			"non-trivial = a commit with >=8 writes over >=2 owners incl. >=1 deletion was compared; distinct by (history, process group, digest)",
 		Assumptions: []string{"'all interleavings / all map iteration orders' is sampled by repetition across replicas and processes, not enumerated"},
